@@ -347,20 +347,25 @@ theorem sig_vals (r : GRec) (hw : WFrec r) : SigVals r := by
   have hmem : ∀ f, f ∈ r.fields ↔ f ∈ sigFields r ++ r.extras := fun f => hperm.mem_iff
   have hP : (⟨r.keyP, r.sepP, r.name, []⟩ : Field) ∈ r.fields := (hmem _).mpr (by simp [sigFields])
   have hS : (⟨r.keyS, r.sepS, statusValue r, []⟩ : Field) ∈ r.fields := (hmem _).mpr (by simp [sigFields])
-  have hV : (⟨r.keyV, r.sepV, r.ver, []⟩ : Field) ∈ r.fields := (hmem _).mpr (by simp [sigFields])
+  have hV : r.ver ≠ [] → (⟨r.keyV, r.sepV, r.ver, []⟩ : Field) ∈ r.fields := fun hv => (hmem _).mpr (by simp [sigFields, verFields, hv])
   have eP := entry_sig r.keyP r.sepP r.name _ (hfields _ hP) hkP
   have eS := entry_sig r.keyS r.sepS (statusValue r) _ (hfields _ hS) hkS
-  have eV := entry_sig r.keyV r.sepV r.ver _ (hfields _ hV) hkV
+  have eV : r.ver ≠ [] → entry ⟨r.keyV, r.sepV, r.ver, []⟩ = ("Version".toList, r.ver) :=
+    fun hv => entry_sig r.keyV r.sepV r.ver _ (hfields _ (hV hv)) hkV
   -- the entry of every field of the stanza
   have hall : ∀ f ∈ r.fields, entry f = ("Package".toList, r.name) ∨ entry f = ("Status".toList, statusValue r) ∨
-      entry f = ("Version".toList, r.ver) ∨ (∃ s, r.source = some s ∧ entry f = ("Source".toList, s)) ∨ (entry f).1 ∉ sigKeys := by
+      (r.ver ≠ [] ∧ entry f = ("Version".toList, r.ver)) ∨ (∃ s, r.source = some s ∧ entry f = ("Source".toList, s)) ∨ (entry f).1 ∉ sigKeys := by
     intro f hf
     rcases List.mem_append.mp ((hmem f).mp hf) with h | h
     · simp only [sigFields, List.mem_append, List.mem_cons, List.not_mem_nil, or_false] at h
-      rcases h with (rfl | rfl | rfl) | h
+      rcases h with ((rfl | rfl) | h) | h
       · exact Or.inl eP
       · exact Or.inr (Or.inl eS)
-      · exact Or.inr (Or.inr (Or.inl eV))
+      · by_cases hv : r.ver = []
+        · simp [verFields, hv] at h
+        · simp only [verFields, hv, if_false, List.mem_singleton] at h
+          subst h
+          exact Or.inr (Or.inr (Or.inl ⟨hv, eV hv⟩))
       · cases hs : r.source with
         | none => simp [hs] at h
         | some s =>
@@ -383,23 +388,34 @@ theorem sig_vals (r : GRec) (hw : WFrec r) : SigVals r := by
   refine ⟨?_, ?_, ?_, ?_⟩
   · apply look _ _ nP (List.mem_map.mpr ⟨_, hP, eP⟩)
     intro f hf hk
-    rcases hall f hf with h | h | h | ⟨s, _, h⟩ | h
+    rcases hall f hf with h | h | ⟨_, h⟩ | ⟨s, _, h⟩ | h
     · rw [h]
     · rw [h] at hk; simp at hk
     · rw [h] at hk; simp at hk
     · rw [h] at hk; simp at hk
     · rw [hk] at h; exact absurd nP h
-  · apply look _ _ nV (List.mem_map.mpr ⟨_, hV, eV⟩)
-    intro f hf hk
-    rcases hall f hf with h | h | h | ⟨s, _, h⟩ | h
-    · rw [h] at hk; simp at hk
-    · rw [h] at hk; simp at hk
-    · rw [h]
-    · rw [h] at hk; simp at hk
-    · rw [hk] at h; exact absurd nV h
+  · by_cases hv : r.ver = []
+    · rw [hv, get_hdr, lookup_absent]
+      · rfl
+      intro e he hk
+      obtain ⟨f, hf, rfl⟩ := List.mem_map.mp he
+      rcases hall f hf with h | h | ⟨hne, _⟩ | ⟨s, _, h⟩ | h
+      · rw [h] at hk; simp at hk
+      · rw [h] at hk; simp at hk
+      · exact hne hv
+      · rw [h] at hk; simp at hk
+      · rw [hk] at h; exact absurd nV h
+    · apply look _ _ nV (List.mem_map.mpr ⟨_, hV hv, eV hv⟩)
+      intro f hf hk
+      rcases hall f hf with h | h | ⟨_, h⟩ | ⟨s, _, h⟩ | h
+      · rw [h] at hk; simp at hk
+      · rw [h] at hk; simp at hk
+      · rw [h]
+      · rw [h] at hk; simp at hk
+      · rw [hk] at h; exact absurd nV h
   · apply look _ _ nS (List.mem_map.mpr ⟨_, hS, eS⟩)
     intro f hf hk
-    rcases hall f hf with h | h | h | ⟨s, _, h⟩ | h
+    rcases hall f hf with h | h | ⟨_, h⟩ | ⟨s, _, h⟩ | h
     · rw [h] at hk; simp at hk
     · rw [h]
     · rw [h] at hk; simp at hk
@@ -410,7 +426,7 @@ theorem sig_vals (r : GRec) (hw : WFrec r) : SigVals r := by
       rw [get_hdr, lookup_absent]
       intro e he hk
       obtain ⟨f, hf, rfl⟩ := List.mem_map.mp he
-      rcases hall f hf with h | h | h | ⟨s, h0, _⟩ | h
+      rcases hall f hf with h | h | ⟨_, h⟩ | ⟨s, h0, _⟩ | h
       · rw [h] at hk; simp at hk
       · rw [h] at hk; simp at hk
       · rw [h] at hk; simp at hk
@@ -422,7 +438,7 @@ theorem sig_vals (r : GRec) (hw : WFrec r) : SigVals r := by
       simp only [Option.getD_some]
       apply look _ _ nSrc (List.mem_map.mpr ⟨_, hSrc, eSrc⟩)
       intro f hf hk
-      rcases hall f hf with h | h | h | ⟨s', h0, h⟩ | h
+      rcases hall f hf with h | h | ⟨_, h⟩ | ⟨s', h0, h⟩ | h
       · rw [h] at hk; simp at hk
       · rw [h] at hk; simp at hk
       · rw [h] at hk; simp at hk
@@ -457,7 +473,7 @@ theorem process_wf (r : GRec) (hw : WFrec r) :
   have sv := sig_vals r hw
   obtain ⟨_, _, _, _, _, _, hn, hv, hwant, hflag, hstate, hsrc, _⟩ := hw
   unfold process
-  generalize "installed".toList = I
+  generalize "installed".toList = I at hv ⊢
   simp only [sv.pkg, sv.ver, sv.status, sv.source]
   have hst : (statusValue r).isEmpty = false := by
     unfold statusValue; cases hwt : r.want with
@@ -468,13 +484,15 @@ theorem process_wf (r : GRec) (hw : WFrec r) :
     rw [splitSp_word r.want _ hwant.2, splitSp_word r.flag _ hflag.2, splitSp_last r.state hstate.2]
     simp
   have hne : r.name.isEmpty = false := by cases h : r.name <;> simp_all
-  have hve : r.ver.isEmpty = false := by cases h : r.ver <;> simp_all
+  have hve : r.state = I → r.ver.isEmpty = false := by
+    intro hi; have := hv hi; cases h : r.ver <;> simp_all
   have hsrc' : ¬ (r.source.getD []) = [] → containsSpParen (r.source.getD []) = true → (r.source.getD []).getLast? = some ')' := by
     cases hs : r.source with
     | none => simp
     | some s => intro _ hc; exact (hsrc s hs).2 hc
   by_cases hi : r.state = I
-  · simp [hst, hsplit, hi, hne, hve]
+  · have hve' := hve hi
+    simp [hst, hsplit, hi, hne, hve']
     exact hsrc'
   · simp [hst, hsplit, hi]
 
